@@ -56,7 +56,7 @@ def buildExcl (C : Nat) : List Nat → List Nat → List Nat
     `excl` is `proposerMap`. `none` = panic. -/
 def peersLoop (vrf : Seed) (table : List Nat) (N C end_ : Nat) (excl : List Nat) (i : Nat) (peers : List Nat) (cnt : Nat) :
     Option (List Nat) :=
-  if h : i ≥ 512 then
+  if _h : i ≥ 512 then
     -- calcParticipant answers math.MaxUint32: `return []uint32{}`
     some []
   else
